@@ -330,6 +330,17 @@ def run_lookalike(shard, res):
                 res.count("lookalike-cases")
                 res.observe("lookalike:extension", e)
                 check_accept("lookalike", data, {"toks": toks}, res)
+        # the capability written as a multi-line literal whose CONTENT is not the name: dot-
+        # stuffed, with its line break, padded (the content of text:\nE\n. is "E" + line break)
+        for mls in (b"text:\n.." + e.encode() + b"\n.", b"text:\n..." + e.encode() + b"\n.",
+                    b"text:\n" + e.encode() + b"\n.", b"text:\r\n" + e.encode() + b"\r\n.",
+                    b"text:\n " + e.encode() + b"\n.", b"text:\n" + e.encode() + b"\n\n."):
+            for req in ([b"require", mls, b";"], [b"require", b"[", mls, b"]", b";"]):
+                toks = (g._req_list(others) if others else []) + req + body
+                data = gen.join_tokens(toks)
+                res.count("lookalike-cases")
+                res.count("lookalike-multi-line-capability")
+                check_accept("lookalike", data, {"toks": toks}, res)
         # the only require naming the extension stands INSIDE a multi-line literal, behind a
         # body line that nearly is the terminator (a dot followed by blanks)
         for blank in (b" ", b"\t", b"\x0c", b"\x0b", b" \t "):
